@@ -311,13 +311,21 @@ def main(argv=None):
 
     # bounded stand-ins for undecided functions (labelled bounded, never proof)
     bounded = []
+    standin_memo = {}
     und_functions = sorted({u["function"] for u in undecided})
     standins = spec.get("standins", {})
     for q in und_functions + (sorted(standins) if thorough else []):
         drv = standins.get(q)
         if drv is None or any(b["function"] == q for b in bounded):
             continue
-        res = run_replay(drv["driver"], {"mode": "bounded", "function": q, "seed": seed, "tier": args.tier})
+        # drivers that explore a whole subsystem give the same answer whatever function asked
+        generic = drv["driver"] not in ("pure.py", "http_explore.py")
+        if generic and drv["driver"] in standin_memo:
+            res = standin_memo[drv["driver"]]
+        else:
+            res = run_replay(drv["driver"], {"mode": "bounded", "function": q, "seed": seed, "tier": args.tier}, timeout=3600)
+            if generic:
+                standin_memo[drv["driver"]] = res
         b = {"function": q, "driver": drv["driver"], "bound": drv.get("bound", ""), "result": res}
         bounded.append(b)
         if res and res.get("failing"):
@@ -328,7 +336,7 @@ def main(argv=None):
     for q, drv in sorted(spec.get("bounded_always", {}).items()):
         req = {"mode": "bounded", "function": q, "seed": seed, "tier": args.tier}
         req.update(drv.get("request", {}))
-        res = run_replay(drv["driver"], req)
+        res = run_replay(drv["driver"], req, timeout=3600)
         b = {"function": q, "driver": drv["driver"], "bound": drv.get("bound", ""), "result": res, "not_under_contract": True}
         bounded.append(b)
         if res and res.get("failing"):
@@ -342,6 +350,42 @@ def main(argv=None):
             for kf in known:
                 if kf.get("kind") == "known" and kf.get("witness") == w and not any(k is kf for k, _ in known_hits):
                     known_hits.append((kf, kf.get("obligation", b["function"] + "#bounded")))
+
+    thorough_extra = {}
+    if thorough and os.path.realpath(os.environ.get("VERIF_REPO", "/repo")) == "/repo":
+        # (d) bounded conformance of the ASSUMED models against the installed libraries
+        try:
+            out = subprocess.run(["/venv/bin/python", os.path.join(VERIF_ROOT, "bounded", "conf_models.py"), "--tier=thorough"],
+                                 capture_output=True, text=True, timeout=1800, env=dict(os.environ, PYTHONPATH=repo.root))
+            cm = json.loads(out.stdout)
+            thorough_extra["assumed_model_conformance"] = {
+                "label": "bounded", "axioms_checked": cm["axioms"], "cases": sum(r["tried"] for r in cm["results"]),
+                "violated": cm["violated"]}
+            for v in cm["violated"]:
+                # an assumed axiom that the library does not satisfy: the proofs resting on it are
+                # void for such inputs - reported, and a checker error unless it is a recorded finding
+                if not any(k.get("kind") == "known" and k.get("model_axiom") == v["axiom"] for k in load_json(KNOWN, [])):
+                    checker_errors.append(f"assumed model axiom violated by the installed library: {v['axiom']} at {v['counterexample'][:120]}")
+        except Exception as e:  # pragma: no cover
+            checker_errors.append(f"conformance check failed to run: {e!r}")
+        # (e) sampled must-fail mutants of this property's functions (survivors are coverage
+        # gaps: listed, they do not fail the check)
+        import random as _r
+
+        fns = [f for f in spec["functions"]]
+        _r.Random(seed).shuffle(fns)
+        mres = {}
+        for f in fns[:int(os.environ.get("VERIF_MUTANT_FUNCTIONS", "3"))]:
+            try:
+                subprocess.run(["python3-vt", os.path.join(VERIF_ROOT, "tools", "mutate.py"), f.split("@")[0], "--verify", f,
+                                "--max", os.environ.get("VERIF_MUTANTS_PER_FUNCTION", "5"), "--seed", str(seed), "--jobs", "4"],
+                               cwd=VERIF_ROOT, capture_output=True, text=True, timeout=3600)
+                res = load_json(os.path.join(VERIF_ROOT, "scratch_mut.json"), [])
+                mres[f] = {"mutants": len(res), "killed": sum(1 for m in res if m["killed"]),
+                           "survivors": [m["mutant"] for m in res if not m["killed"]]}
+            except Exception as e:  # pragma: no cover
+                mres[f] = {"error": repr(e)}
+        thorough_extra["must_fail_mutants"] = mres
 
     for u in undecided:
         print(f"UNDECIDED-PROOF property={pid} function={u['function']} obligation={u.get('obligation', '-')} reason={str(u['reason'])[:200]}")
@@ -393,6 +437,7 @@ def main(argv=None):
             "undecided": undecided,
             "known_findings": [{"obligation": n, "what": k["what"]} for k, n in known_hits],
             "bounded": bounded,
+            "thorough": thorough_extra,
             "evaluations": sum(o["instances"] for o in all_obs.values()),
             "distinct_nontrivial": n_ob,
             "rule": "one case = one named obligation (post / raises / invariant init+step / callee precondition / frame) "
